@@ -556,7 +556,7 @@ func (w *c30World) runLoop(cfg *types.Chain33Config) *simrt.Violation {
 					}
 				}
 				if len(keep) < len(pending.given) {
-					ctx.Probe("chain_duplicates_dropped")
+					ctx.Fault("chain_reports_duplicates")
 				}
 				pending.given = keep
 			}
@@ -587,7 +587,7 @@ func (w *c30World) runLoop(cfg *types.Chain33Config) *simrt.Violation {
 			}
 			if ll == nil || ll.reject || v != nil {
 				if ll != nil && ll.reject {
-					ctx.Probe("block_rejected_by_chain")
+					ctx.Fault("chain_rejects_block")
 				}
 				mu.Unlock()
 				msg.Reply(c.NewMessage("", types.EventAddBlockDetail, types.ErrBlockExist))
@@ -601,7 +601,7 @@ func (w *c30World) runLoop(cfg *types.Chain33Config) *simrt.Violation {
 					break
 				}
 				out.Txs = out.Txs[:len(out.Txs)-len(last.members)]
-				ctx.Probe("execution_dropped_txs")
+				ctx.Fault("execution_drops_txs")
 			}
 			out.StateHash = []byte(fmt.Sprintf("s%d", out.Height))
 			tip = out
